@@ -23,8 +23,8 @@ CLAIMS.update({
    note="Outside the claim (stated in DESIGN): transaction/bundle structure (read_v4/v5/v6; Sapling/Orchard/Ironwood bundles need curve-point decoding), TxIn and non-empty Script (Vec-producing readers did not get through symex), BlockHeader hashing, txid/auth-commitment equality after a round trip. zcash_primitives links the published zcash_encoding 0.4 from the registry, not the local 0.5 harnessed here.",
    ref="§5 C03"),
  "C07": dict(
-   text="ZIP 317 fee_required equals 5000*max(2, logical actions) computed in 128-bit arithmetic for all sizes/counts in the bounds; SingleOutputChangeStrategy::compute_balance on a Sapling 1-in/1-out transaction: for ALL values, dust policies/thresholds, target and anchor heights the solver shows conservation (inputs = outputs + change + fee), fee = ZIP 317 fee of the final shape unless dust is folded in, the dust rule, and that InsufficientFunds is honest; the same shape WITH a change memo (a change output is always present; dust folded into the fee leaves a zero-valued change output and fee - 10000 = the folded dust).",
-   note="Bounds: 2 transparent inputs/outputs with sizes <= 2^20 and counts <= 2^40 for the formula; one pool combination (Sapling 1x1, single-output strategy, with and without a change memo, no ephemeral balance) for the balance. The fully transparent 1-in/2-out shape with transparent change exhausted 34 GB and is kept as experimental; other pool combinations, the multi-output strategy and the Orchard turnstile rule are outside (see DESIGN).",
+   text="ZIP 317 fee_required equals 5000*max(2, logical actions) computed in 128-bit arithmetic for ALL usize sizes and counts (Ok iff representable, else Err(Overflow); never a panic or a wrapped fee - this found and fixed a defect); SingleOutputChangeStrategy::compute_balance on a Sapling 1-in/1-out transaction: for ALL values, dust policies/thresholds, target and anchor heights the solver shows conservation (inputs = outputs + change + fee), fee = ZIP 317 fee of the final shape unless dust is folded in, the dust rule, and that InsufficientFunds is honest; the same shape WITH a change memo (a change output is always present; dust folded into the fee leaves a zero-valued change output and fee - 10000 = the folded dust).",
+   note="Bounds: 2 transparent inputs and 2 outputs for the formula (sizes and counts unbounded in one harness, <= 2^20 / 2^40 in the other); one pool combination (Sapling 1x1, single-output strategy, with and without a change memo, no ephemeral balance) for the balance. The fully transparent 1-in/2-out shape with transparent change exhausted 34 GB and is kept as experimental; other pool combinations, the multi-output strategy and the Orchard turnstile rule are outside (see DESIGN).",
    ref="§5 C07"),
  "C10": dict(
    text="F4Jumble is shown to be a length-preserving bijection (inv(jumble(m)) = m and jumble(inv(m)) = m) for EVERY message of each instantiated length, with BLAKE2b abstracted by a deterministic mixing function (a Feistel network is invertible for any round function, so the solver decides the structure: split point, round order, G block index, tail xor); invalid lengths are rejected without touching the buffer. ZIP 316 container rules through the public API: a unified address of 0, 1 or 2 receivers is accepted iff typecodes are distinct, not P2PKH+P2SH, not only transparent (error kinds exact, items stored in ascending order); typecode mapping for all u32; per-item rules of Receiver/Fvk/Ivk for ALL u32 typecodes at the item lengths 20/43/64/65 (96/128 thorough); the container byte layer (hook): one Sapling item + 16 padding bytes is accepted iff the padding is exactly HRP||zeros.",
@@ -35,8 +35,8 @@ CLAIMS.update({
    note="from_uri/to_uri end to end, amount<->decimal conversion (format! with padding, str::parse), percent-encoding, Payment::new and address parameters are outside the claim: CBMC did not get through format! of a 3-digit number in 11 minutes (DESIGN §3). In the grammar harness <char as Pattern>::is_contained_in is stubbed by the equivalent byte loop for ASCII haystacks. Uses the verif hook zip321::verif_hooks.",
    ref="§5 C12"),
  "C13": dict(
-   text="Merge algebra of the PCZT Global record: Global::merge equals, for ALL pairs of field values and all 256 flag bytes, the documented rule (same transaction required, bits 0/1/7 merge towards false, bit 2 towards true, reserved bits 3-6 rejected), is commutative and idempotent on valid records; associativity follows from the solver-checked associativity of that reference. merge_optional (the helper every optional PCZT field is merged with) for all Option<u32> triples: fails iff both present and different, keeps whatever either side carried, commutative/idempotent/associative.",
-   note="Through the cfg(zcash_librustzcash_verif) hook pczt::verif_hooks; proprietary maps empty. Outside the claim: merge_map and the transparent/Sapling/Orchard record merges (BTreeMap-heavy harnesses did not finish and are kept as experimental), serde/postcard encodings and version selection, and every role that needs cryptography (signer, prover, extractor, pczt_txid).",
+   text="Merge algebra of the PCZT Global record: Global::merge equals, for ALL pairs of field values and all 256 flag bytes, the documented rule (same transaction required, bits 0/1/7 merge towards false, bit 2 towards true, reserved bits 3-6 rejected), is commutative and idempotent on valid records; associativity follows from the solver-checked associativity of that reference. transparent::Bundle::merge list-length rule on output lists (2 vs 1 quick; 1 vs 2 and 0 vs 2 thorough): refused iff it would add outputs to a copy whose outputs are not modifiable or the common prefix differs; the result has exactly max(n_a,n_b) outputs, the tail moved over once. merge_optional (the helper every optional PCZT field is merged with) for all Option<u32> triples: fails iff both present and different, keeps whatever either side carried, commutative/idempotent/associative.",
+   note="Through the cfg(zcash_librustzcash_verif) hook pczt::verif_hooks; proprietary maps empty. In the list-length harnesses roles::combiner::merge_map is stubbed for two EMPTY maps (asserted empty). Outside the claim: merge_map on non-empty maps, field-level merges of transparent inputs/outputs, the Sapling/Orchard record merges (BTreeMap-heavy harnesses did not finish and are kept as experimental), serde/postcard encodings and version selection, and every role that needs cryptography (signer, prover, extractor, pczt_txid).",
    ref="§5 C13"),
  "C15": dict(
    text="One insertion step of the scan-queue algebra is decided for ALL ranges over u32 heights, all 7x7 priorities and both force flags: the result of the leaf-level insert is a sorted, gap-free, merged partition of the hull whose priority at EVERY height equals the documented dominance rule applied pointwise; dominance() and join_nonoverlapping() likewise. One step from an arbitrary valid range makes the Rust part inductive over insertion histories.",
@@ -55,7 +55,7 @@ CLAIMS.update({
    note="2 transactions. Not decided: that the real dead_set computes the documented set (it is an input / stubbed), the non-broadcast steps (helpers stubbed in the priority harness), the drive loop advance_migration, record_satisfiability, shift_schedule, the SQLite save/load round trip and 'one non-terminal migration per account'. Representation invariant (unique ids, deps refer to earlier rows, in-flight rows carry their txid) is assumed of the pre-state and asserted of the post-state. Uses the verif hooks next_step / next_broadcastable.",
    ref="§5 C18"),
  "C20": dict(
-   text="Node record codecs V1/V2/V3 decided in two halves against one independent layout description, with EVERY field symbolic (all u64 counter values incl. beyond the compact-size bound, all roots, all work values): write emits exactly the layout byte for byte with the exact length; read of an arbitrary buffer returns exactly the fields the layout places there, Ok iff counters canonical and the height range representable. V1 combine: every field rule, personalisation ZcashHistory||branch id, and record(left) then record(right) hashed once each. Entry::leaf_count / complete arithmetic for all records.",
+   text="Node record codecs V1/V2/V3 decided in two halves against one independent layout description, with EVERY field symbolic (all u64 counter values incl. beyond the compact-size bound, all roots, all work values): write emits exactly the layout byte for byte with the exact length; read of an arbitrary buffer returns exactly the fields the layout places there, Ok iff counters canonical and the height range representable. V1 combine: every field rule, personalisation ZcashHistory||branch id, and record(left) then record(right) hashed once each. Entry::leaf_count / complete arithmetic for all records; Entry::read/write framing (tag, stored links, record) for ALL buffers of length 0..=33 with a structural Version.",
    note="blake2b_personal is stubbed (records its arguments, returns arbitrary bytes) and, in the combine harness only, NodeData::write is replaced by a 4-byte identifying marker (its real output is the write-layout harness): nothing is claimed about BLAKE2b. Tree::append_leaf/truncate_leaf against a from-scratch MMR did not get through symex (BTreeMap-backed store) and are NOT part of the claim (harnesses kept as experimental).",
    ref="§5 C20"),
 })
@@ -121,7 +121,7 @@ def main():
         }],
         "checks": checks,
         "not_applicable": na,
-        "notes": "Exit codes of every check: 0 all obligations discharged; 1 VIOLATION (counterexample reproduced natively); 2 inconclusive (timeout/OOM/unsupported construct/unwinding bound/non-reproducing counterexample) - never reported as a pass. known_findings.json lists genuine defects found (both repaired by 'fix:' commits in /repo).",
+        "notes": "Exit codes of every check: 0 all obligations discharged; 1 VIOLATION (counterexample reproduced natively); 2 inconclusive (timeout/OOM/unsupported construct/unwinding bound/non-reproducing counterexample) - never reported as a pass. known_findings.json lists the genuine defects found (all four repaired by 'fix:' commits in /repo).",
     }
     json.dump(m, open(os.path.join(ROOT, "MANIFEST.json"), "w"), indent=1)
     print("checks:", [c["property_id"] for c in checks], "n/a:", [x["property_id"] for x in na])
